@@ -201,13 +201,17 @@ Proof. unfold splice. rewrite (proj2 (nth_error_None kids (length kids))) by lia
 
 Lemma int_ins_room id (kids : list kid) r i (L : tree) s (R : tree) np :
   sep_pos (map fst kids) i s -> (i <= length kids)%nat -> klen s + ISLOT <= ifree V kids ->
-  int_ins V id kids r i L s R np = IErr EZeroSep
-  \/ int_ins V id kids r i L s R np = IOk (Node id (fst (splice kids r i L s R)) (snd (splice kids r i L s R))) np.
+  int_ins V id kids r i L s R np = IOk (Node id (fst (splice kids r i L s R)) (snd (splice kids r i L s R))) np.
 Proof.
   intros Hsp Hi Hroom. unfold int_ins. destruct (set_child V kids r i L) as [kids1 right1] eqn:Esc.
   destruct (Z.leb_spec (klen s + ISLOT) (ifree V kids)) as [_ | Hc]; [|lia].
-  match goal with |- context [last ?l None] => destruct (last l None) as [lastk|] eqn:El end; [|left; reflexivity].
-  right. pose proof (last_sep_pos s kids i lastk Hsp Hi El) as Hlast.
+  match goal with |- context [last ?l None] => destruct (last l None) as [lastk|] eqn:El end.
+  2:{ (* no separators *)
+      assert (Hk : kids = []).
+      { destruct kids as [|x k]; [reflexivity|]. exfalso. clear - El. revert x El. induction k as [|y k IH]; intros x El; [discriminate|]. exact (IH y El). }
+      subst kids. cbn [length] in Hi. assert (i = O) by lia. subst i. rewrite set_child_nil in Esc. injection Esc as <- <-.
+      rewrite splice_nil. reflexivity. }
+  pose proof (last_sep_pos s kids i lastk Hsp Hi El) as Hlast.
   assert (Hseps1 : map fst kids1 = map fst kids) by (rewrite <- (set_child_seps V kids r i L), Esc; reflexivity).
   assert (Hlen1 : length kids1 = length kids) by (rewrite <- (set_child_length V kids r i L), Esc; reflexivity).
   assert (Hip : ipos V s kids1 = Some i) by (apply ipos_sep_pos; [rewrite Hseps1; exact Hsp | lia]).
